@@ -723,7 +723,7 @@ class AbstractWalkModelDiGraph(ABC):
         
         # Add edges based on solution values
         for (u, v) in self.G.edges():
-            edge_key = (str(u), str(v), layer_i)
+            edge_key = (u, v, layer_i)
             if edge_key in self.edge_vars_sol:
                 multiplicity = round(self.edge_vars_sol[edge_key])
                 # Add this edge 'multiplicity' times to the residual graph
